@@ -64,7 +64,7 @@ theorem LvG.fireTimeout {w : W} (l : Lv w zero) (rid : Nat) : LvG (w.fireTimeout
     have l4 := (LvG.of_lv l3).dropT zero_nonneg rid (fun _ => ⟨k1, by
       show ((w.modR rid (fun r => { r with timeouted := true })).k.settleWait.getR rid).tSched.isSome = true
       rw [k2.tSched]; exact ht1⟩)
-    exact (l4.step (FQ.ctr _ _).fr (fun l => l.ctr _)).step (Fr.reply _ _ _ _ _) (fun l => l.reply _ _ _ _)
+    exact LvG.wake zero_nonneg ((l4.step (FQ.ctr _ _).fr (fun l => l.ctr _)).step (Fr.reply _ _ _ _ _) (fun l => l.reply _ _ _ _))
 
 theorem LvG.fireExpire {w : W} (l : Lv w zero) (rid : Nat) : LvG (w.fireExpire rid) zero := by
   unfold W.fireExpire
@@ -162,12 +162,19 @@ theorem LvG.visitExpire {w : W} (l : Lv w zero) (slot : Bool) (rid : Nat) (w' : 
 
 /-! ### the sweeps, one entry at a time -/
 
+/-- taking a long-table entry in hand changes no count and no entry's presence -/
+theorem Lv.collectT {w : W} (l : Lv w zero) (rid : Nat) : Lv (w.collectT rid) zero := by
+  unfold W.collectT
+  exact l.modR_plain rid _ (fun _ => rfl) (fun _ => rfl) (fun r => by cases r.tSched <;> rfl) (fun _ => rfl) (fun _ => rfl)
+
 theorem timeoutStep_dbi (slot : Bool) (acc : DB × List Ent) (e : Ent) (h : DBI acc.1) : DBI (timeoutStep slot acc e).1 := by
   unfold timeoutStep
   split
   · rename_i w hw
     exact h.stepW e.key w (W.visitTimeout_fr _ _ _ _ hw) (LvG.visitTimeout (Lv.openKey h e.key) slot e.rid w hw)
-  · exact h
+  · cases slot
+    · exact h.stepW e.key _ (W.collectT_fr _ _) (LvG.of_lv ((Lv.openKey h e.key).collectT e.rid))
+    · exact h
 
 theorem expireStep_dbi (slot : Bool) (acc : DB × List Ent) (e : Ent) (h : DBI acc.1) : DBI (expireStep slot acc e).1 := by
   unfold expireStep
